@@ -1,16 +1,19 @@
 import SockModel.Drive.Common
-import SockModel.Model.AsyncQ
+import SockModel.Spec.C02
 /-! Driver for C02: validates async-send transcripts (`harness/scen/async_send.cpp`) against
-`Model/AsyncQ.lean` (correspondence) and evaluates the property directly on the observations
-(`specPass`: an ideal FIFO pipeline fed with the same OS answers; it knows nothing about
-`POLLOUT`, `wasEmpty` or the model state). -/
+`Model/AsyncQ.lean` (correspondence) and evaluates the property directly on the observations.
+
+The property predicate itself is NOT here: the transcript lines are parsed into typed observations
+(`AsyncQ.Obs`, `items`) and judged by `AsyncQ.specRunL` = `specStep` of `Spec/C02.lean` - an ideal FIFO
+pipeline fed with the same OS answers; it knows nothing about `POLLOUT`, `wasEmpty` or the model state
+and is proved there to accept every trace of the model (`model_satisfies_spec`, re-exported as
+`spec_holds_on_model` in `Props/C02.lean`).  Only the byte-stream parser of the multi-threaded runs
+(`specMt`) lives in this file; its verdict is handed to the spec as `Obs.external`. -/
 namespace SockModel.Drive.C02
 open SockModel SockModel.Drive SockModel.AsyncQ
 
 def pat (id j : Nat) : UInt8 := UInt8.ofNat ((id * 37 + j * 11 + (j / 251) * 3 + 1) % 256)
 def content (id size : Nat) : Bytes := (List.range size).map (pat id)
-def fnv (bs : Bytes) : UInt64 :=
-  bs.foldl (fun h b => (h ^^^ b.toUInt64) * 1099511628211) 14695981039346656037
 
 /-- observation lines following an op -/
 def takeObs : List String → List (List String) → List (List String) × List String
@@ -20,12 +23,6 @@ def takeObs : List String → List (List String) → List (List String) × List 
     | some w => takeObs rest (w :: acc)
     | none => (acc.reverse, l :: rest)
 
-inductive Sys where
-  | none
-  | sent (len r : Nat)
-  | fail (len : Nat)
-  deriving Repr, BEq
-
 structure StepObs where
   sys : List Sys := []
   disconnect : Bool := false
@@ -34,7 +31,7 @@ structure StepObs where
   futs : Option String := none
   ret : Option (List Nat) := none
   nobuf : Bool := false
-  wire : Option (Nat × String) := none
+  wire : Option (Nat × Nat) := none
   crash : Option String := none
   bad : Option String := none
 
@@ -57,109 +54,33 @@ def parseObs (obs : List (List String)) : StepObs :=
       match parseRet (r.drop 4).toString with
       | some ids => { o with futs := some (f.drop 4).toString, ret := some ids }
       | none => { o with bad := some "st" }
-    | ["wire", n, h] => match n.toNat? with
-      | some n => { o with wire := some (n, h) } | none => { o with bad := some "wire" }
+    | ["wire", n, h] => match n.toNat?, h.toNat? with
+      | some n, some h => { o with wire := some (n, h) } | _, _ => { o with bad := some "wire" }
     | "crash" :: rest => { o with crash := some (" ".intercalate rest) }
     | "hang" :: rest => { o with crash := some ("hang " ++ " ".intercalate rest) }
     | _ => { o with bad := some (" ".intercalate w) }) {}
 
-/-! ## the property on observations only -/
+/-! ## transcript lines -> typed observations (`AsyncQ.Obs`) -/
 
-structure SElem where
-  id : Nat
-  rest : Bytes
-
-structure Spec where
-  poolN : Nat := 0
-  pend : List SElem := []                 -- Sends whose future must still be pending, in Send order
-  status : List (Nat × Char) := []        -- expected future letter per id, creation order
-  acc : Bytes := []                       -- accepted by the OS, not yet read by the peer
-  connected : Bool := true
-  peerClosed : Bool := false
-  destroyed : Bool := false
-
-def Spec.setStatus (sp : Spec) (id : Nat) (c : Char) : Spec :=
-  { sp with status := sp.status.map fun (i, x) => if i = id then (i, c) else (i, x) }
-
-def Spec.letters (sp : Spec) : String := String.ofList (sp.status.map (·.2))
-def Spec.resolvedIds (sp : Spec) : List Nat := (sp.status.filter (·.2 ≠ 'p')).map (·.1)
-
-def sameSet (a b : List Nat) : Bool := a.all b.contains && b.all a.contains && a.length == b.length
-
-def Spec.checkState (sp : Spec) (o : StepObs) : Except String Unit := do
+def StepObs.st (o : StepObs) : Option StObs :=
   match o.futs, o.ret with
-  | some f, some r =>
-    let f := if f = "-" then "" else f
-    if f ≠ sp.letters then
-      throw s!"futures are {f} but an ideal FIFO pipeline fed with the same OS answers has {sp.letters} (p=pending v=value e=exception b=broken)"
-    if ¬ sameSet r sp.resolvedIds then
-      throw s!"buffers back in the pool {r} differ from the buffers whose future is resolved {sp.resolvedIds}"
-  | _, _ => throw "missing state observation"
+  | some f, some r => some { futs := if f = "-" then "" else f, ret := r }
+  | _, _ => none
 
-def Spec.sys (sp : Spec) (zeroScripted : Bool) : Sys → Except String Spec
-  | .none => pure sp
-  | .sent _ r =>
-    match sp.pend with
-    | [] => throw "a send() was issued although no buffer is queued"
-    | e :: rest =>
-      if r > e.rest.length then throw s!"the OS accepted {r} bytes of a buffer that has only {e.rest.length} left"
-      else if r = e.rest.length then
-        pure ({ sp with pend := rest, acc := sp.acc ++ e.rest }.setStatus e.id 'v')
-      else if r = 0 ∧ ¬ zeroScripted then throw "send() returned 0"
-      else pure { sp with pend := { e with rest := e.rest.drop r } :: rest, acc := sp.acc ++ e.rest.take r }
-  | .fail _ =>
-    match sp.pend with
-    | [] => throw "a send() was issued although no buffer is queued"
-    | e :: rest => pure ({ sp with pend := rest }.setStatus e.id 'e')
-
-def specOp (sp : Spec) (w : List String) (o : StepObs) : Except String Spec := do
-  if let some c := o.crash then throw s!"crash: {c}"
+/-- the typed observation of one operation line `w` with its observation lines `o` -/
+def toObs (w : List String) (o : StepObs) : Obs :=
+  if let some c := o.crash then .crash c else
   match w with
-  | ["sock", n, _] => pure { sp with poolN := n.toNat?.getD 0 }
+  | ["sock", n, _] => .sock (n.toNat?.getD 0)
   | ["send", id, size] =>
     match id.toNat?, size.toNat? with
-    | some id, some size =>
-      if o.nobuf then pure sp
-      else
-        let sp := { sp with pend := sp.pend ++ [⟨id, content id size⟩], status := sp.status ++ [(id, 'p')] }
-        sp.checkState o
-        pure sp
-    | _, _ => throw "bad send line"
-  | "step" :: script =>
-    let zero := script.head? == some "zero"
-    if o.data then throw "receive handler invoked although the peer never sent"
-    if o.disconnect ∧ ¬ sp.peerClosed then throw "disconnect handler invoked although the peer did not close"
-    if o.sys.length > 1 then throw "more than one send() in one driver step"
-    let mut sp := sp
-    for s in o.sys do
-      sp ← sp.sys zero s
-    match o.thrown with
-    | some t =>
-      let okThrow : Bool := zero && (match o.sys with | [.sent l 0] => decide (l > 0) | _ => false)
-      if ¬ okThrow then throw s!"Step threw: {t}"
-    | none => pure ()
-    if o.disconnect then sp := { sp with connected := false }
-    -- "does not stay pending while the driver runs and the peer reads"
-    if o.sys.isEmpty ∧ ¬ o.disconnect ∧ sp.connected ∧ ¬ sp.peerClosed ∧ ¬ sp.destroyed ∧ sp.pend ≠ [] ∧ sp.acc.isEmpty then
-      throw "a buffer is queued, the peer has read everything, yet Step made no send attempt (future stays pending)"
-    sp.checkState o
-    pure sp
-  | ["drain"] =>
-    match o.wire with
-    | some (n, h) =>
-      -- the peer may lag behind the OS (it read fewer bytes than were accepted so far): what it read must be
-      -- exactly the next bytes of the FIFO concatenation; the rest stays expected
-      if n > sp.acc.length ∨ h ≠ toString (fnv (sp.acc.take n)) then
-        throw s!"peer read {n} bytes (hash {h}); the FIFO concatenation of what the OS accepted continues with {sp.acc.length} bytes (hash of the first {min n sp.acc.length}: {fnv (sp.acc.take n)})"
-      pure { sp with acc := sp.acc.drop n }
-    | none => throw "missing wire observation"
-  | ["peerclose"] => pure { sp with peerClosed := true }
-  | ["destroy"] =>
-    let sp := { sp with pend := [], destroyed := true,
-                        status := sp.status.map fun (i, c) => if c = 'p' then (i, 'b') else (i, c) }
-    sp.checkState o
-    pure sp
-  | _ => pure sp
+    | some id, some size => if o.nobuf then .nobuf else .send id (content id size) o.st
+    | _, _ => .malformed "bad send line"
+  | "step" :: script => .step (script.head? == some "zero") o.sys o.data o.disconnect o.thrown o.st
+  | ["drain"] => .drain o.wire
+  | ["peerclose"] => .peerclose
+  | ["destroy"] => .destroy o.st
+  | _ => .external none
 
 /-! ### multi-threaded runs: the property on the peer's byte stream -/
 
@@ -201,25 +122,40 @@ def specMt (w : List String) (obs : List (List String)) : Except String Unit := 
     if ¬ obs.any (fun o => o.take 2 == ["mt", "stream"]) then throw "missing stream observation"
   | _ => pure ()
 
-partial def specPass (sp : Spec) : List String → Option String
-  | [] => none
-  | l :: rest =>
-    let w := words l
-    if w.isEmpty then specPass sp rest else
-    match w with
-    | "->" :: "crash" :: x => some ("crash: " ++ " ".intercalate x)
-    | "->" :: "hang" :: x => some ("hang: " ++ " ".intercalate x)
-    | "->" :: _ => specPass sp rest
-    | _ =>
-      let (obs, rest') := takeObs rest []
+/-- parser state: the operation line being collected (line, words) with its observation lines (reversed) -/
+structure PSt where
+  cur : Option (String × List String) := none
+  obs : List (List String) := []
+  out : List (Option String × Obs) := []     -- reversed
+
+def PSt.flush (p : PSt) : PSt :=
+  match p.cur with
+  | none => { p with obs := [] }
+  | some (l, w) =>
+    let obs := p.obs.reverse
+    let item : Option String × Obs :=
       if w.head? == some "mt" then
-        match specMt w obs with
-        | .error m => some m
-        | .ok _ => specPass sp rest'
-      else
-        match specOp sp w (parseObs obs) with
-        | .error m => some s!"after '{l}': {m}"
-        | .ok sp' => specPass sp' rest'
+        (none, .external (match specMt w obs with | .error m => some m | .ok _ => none))
+      else (some l, toObs w (parseObs obs))
+    { cur := none, obs := [], out := item :: p.out }
+
+/-- one transcript block -> the labelled observations of `AsyncQ.specRunL` (an empty line ends the
+observations of an operation; a crash / hang reported outside an operation is a failure of its own) -/
+def items (body : List String) : List (Option String × Obs) :=
+  let p := body.foldl (fun (p : PSt) l =>
+    let w := words l
+    if w.isEmpty then p.flush else
+    match w with
+    | "->" :: rest =>
+      match p.cur with
+      | some _ => { p with obs := rest :: p.obs }
+      | none =>
+        match rest with
+        | "crash" :: x => { p with out := (none, .external (some ("crash: " ++ " ".intercalate x))) :: p.out }
+        | "hang" :: x => { p with out := (none, .external (some ("hang: " ++ " ".intercalate x))) :: p.out }
+        | _ => p
+    | _ => { p.flush with cur := some (l, w) }) {}
+  p.flush.out.reverse
 
 /-! ## correspondence with `Model/AsyncQ.lean` -/
 
@@ -230,9 +166,6 @@ structure CSt where
   drained : Nat := 0
   peerClosed : Bool := false
   tags : List String := []
-
-def letter : Fut → Char
-  | .none => '?' | .pending => 'p' | .value => 'v' | .exn => 'e' | .broken => 'b'
 
 def CSt.check (c : CSt) (o : StepObs) (l : String) : Option String :=
   match o.futs, o.ret with
@@ -268,7 +201,7 @@ partial def corrPass (c : CSt) : List String → Verdict
           else
             let tag := if c.m.q.isEmpty then "enq.empty" else "enq.nonempty"
             let tag2 := if c.m.registered then [] else ["arm.unregistered"]
-            let m := step (step c.m (.enq 0 id (content id size))) (.arm 0)
+            let m := mSend c.m id (content id size)
             let c := { c with m := m, ids := c.ids ++ [id], tags := tag :: tag2 ++ c.tags }
             match c.check o l with
             | some msg => Verdict.corr msg c.tags
@@ -294,14 +227,14 @@ partial def corrPass (c : CSt) : List String → Verdict
                   let tag := if e.rest.length ≤ k then "w.full" else if k = 0 then "w.zero" else "w.partial"
                   let m1 := step c.m (.writable (.accept k))
                   let tag2 := if m1.drvDisarm then ["disarm"] else []
-                  .ok (step m1 .disarm, tag :: tag2)
+                  .ok (mWritable c.m (.accept k), tag :: tag2)
           | [.fail len] =>
             if ¬ enabled then .error "impl sent although the model has POLLOUT disarmed / socket unregistered"
             else match front with
               | none => .error "impl sent with an empty model queue"
               | some e =>
                 if len ≠ e.rest.length then .error s!"impl offered {len} bytes, model's front buffer has {e.rest.length} unsent"
-                else .ok (step (step c.m (.writable .fail)) .disarm, ["w.fail"])
+                else .ok (mWritable c.m .fail, ["w.fail"])
           | _ => .error "more than one send in a step"
         match r with
         | .error msg => Verdict.corr s!"after '{l}': {msg}" c.tags
@@ -316,7 +249,7 @@ partial def corrPass (c : CSt) : List String → Verdict
         match o.wire with
         | some (n, h) =>
           let seg := (c.m.wire.drop c.drained).take n
-          if n ≠ seg.length ∨ h ≠ toString (fnv seg) then
+          if n ≠ seg.length ∨ h ≠ (fnv seg).toNat then
             Verdict.corr s!"after '{l}': peer read {n} bytes hash {h}, model wire continues with {(c.m.wire.drop c.drained).length} bytes (hash of that prefix {fnv seg})" c.tags
           else corrPass { c with drained := c.drained + n,
                                  tags := (if c.drained + n < c.m.wire.length then ["drain", "drain.lag"] else ["drain"]) ++ c.tags } rest'
@@ -332,8 +265,8 @@ partial def corrPass (c : CSt) : List String → Verdict
       | _ => Verdict.corr s!"unknown line {l}" c.tags
 
 def runCase (body : List String) : Verdict :=
-  match specPass {} body with
-  | some msg => Verdict.spec msg
-  | none => corrPass {} body
+  match specRunL {} (items body) with
+  | .error msg => Verdict.spec msg
+  | .ok _ => corrPass {} body
 
 end SockModel.Drive.C02
